@@ -108,6 +108,7 @@ def _with_repeats(rng, subsets, per):
 def streams(ctx):
     subsets, enc = _all_cases()
     ctx.run_cases(ENC, "encode-all-forms-exhaustive", enc, exhaustive=True, sample_every=397)
+    ctx.run_cases(ENC, "single-days-on-their-own", [("single", [d]) for d in range(7)] + [("single", [d], "keyword") for d in range(7)], exhaustive=True)
     ctx.run_cases(ENC, "argument-passed-by-keyword", [(f, i, "keyword") for (f, i) in enc], exhaustive=True, sample_every=397)
     ctx.run_cases(ENC, "sequences-of-any-length-with-repeated-members", _with_repeats(ctx.rng, subsets, ctx.n(3, 40)), exhaustive=False, sample_every=97)
     ctx.run_cases(DEC, "decode-all-masks-exhaustive", list(range(-2, 301)), exhaustive=True, sample_every=97)
